@@ -29,6 +29,15 @@ impl<T, F: FnMut(&mut Context<'_>) -> Poll<T>> Future for PollFn<F> {
     }
 }
 
+/// Drop an h2 object under a panic catcher: the test-only drop assertions of h2's `unstable` feature
+/// must not make the actor lose the records that follow the drop.
+pub fn drop_caught<T>(x: T, what: &str) {
+    if let Err(p) = std::panic::catch_unwind(std::panic::AssertUnwindSafe(move || drop(x))) {
+        let msg = if let Some(s) = p.downcast_ref::<&str>() { s.to_string() } else if let Some(s) = p.downcast_ref::<String>() { s.clone() } else { "?".into() };
+        sim::with(|w| w.stats.panics.push(format!("drop of {}: {}", what, msg)));
+    }
+}
+
 /// Give the scheduler a chance to run something else (n scheduling slots).
 pub async fn yield_n(n: u32) {
     for _ in 0..n {
@@ -594,11 +603,11 @@ pub async fn client_conn_task(ctx: Ctx, mut conn: client::Connection<PipeEnd, By
     ctl.borrow_mut().done = true;
     if dropped {
         api(&ctx, Op::DropConn, Phase::Ret, 0, 0, 0, 0, 0, false, Res::Ok, None);
-        drop(conn);
+        drop_caught(conn, "connection");
         ret(&ctx, Op::ConnDone, id, 0, 0, 0, 0, true, Res::End, None);
     } else {
         ret(&ctx, Op::ConnDone, id, 0, 0, 0, 0, false, res_of(&r), None);
-        drop(conn);
+        drop_caught(conn, "connection");
     }
 }
 
@@ -1016,11 +1025,11 @@ pub async fn server_main(ctx: Ctx, io: PipeEnd, cfg: EpCfg, specs: Vec<StreamSpe
         // the accept loop ends with the connection object
         ret(&ctx, Op::Accept, acc_id, 0, 0, 0, 0, false, Res::End, None);
         api(&ctx, Op::DropConn, Phase::Ret, 0, 0, 0, 0, 0, false, Res::Ok, None);
-        drop(conn);
+        drop_caught(conn, "connection");
         ret(&ctx, Op::ConnDone, cid, 0, 0, 0, 0, true, Res::End, None);
     } else {
         ret(&ctx, Op::ConnDone, cid, 0, 0, 0, 0, false, res_of(&r), None);
-        drop(conn);
+        drop_caught(conn, "connection");
     }
 }
 
